@@ -221,6 +221,7 @@ def shard(args):
     path = os.path.join(wd, 'b%d.hxb' % s)
     hxb.write_batch(path, cases)
     res = fw.run_hx([bdir + '/hx', 'run', path, '--crash-dir', wd], timeout=7200)
+    fw.discard(path)
     out = dict(viol=[], crashes=res['crashes'], hung=res['hung'], n=0, distinct=set(), stats=None, samples=[], monitor=[], classes={})
     for l in res['lines']:
         if l.startswith('S '):
@@ -260,7 +261,7 @@ def run(tier):
     wd = fw.workdir('C16')
     fw.replay_dir('C16')
     n = SIZES[tier]
-    nsh = fw.NPROC
+    nsh = fw.nshards(n, SIZES['quick'])
     outs = fw.pool_map(shard, [(bdir, wd, fw.seed(), s, nsh, n) for s in range(nsh)])
     tot = 0
     distinct, samples, stats, classes = set(), [], [], {}
